@@ -415,13 +415,38 @@ func verifGenRefusedCreate(name string, tag string) verifStmt {
 		applyN: func(db *verifDB, j int) {}}
 }
 
+// verifGenRefusedInsert: a one-row INSERT the engine must refuse (a string for
+// the BIGINT column, or an INT beyond 32 bits, by choice).
+func verifGenRefusedInsert(t *verifTable, tag string) verifStmt {
+	r := verifSymRow(tag, 1)
+	if verifChoice(tag+"how", 2) == 0 {
+		r[1] = verifString(tag+"wrong", 1)
+	} else {
+		x := verifI64(tag + "big")
+		verifAssume(verifOr(x > 2147483647, x < -2147483648))
+		r[0] = x
+	}
+	st := verifInsertStmt(t.name, nil, [][]interface{}{r})
+	return verifStmt{kind: "refused-insert", table: t.name,
+		run: func(rm RelationManager) error {
+			if _, err := EvaluateInsert(st, rm); err == nil {
+				return errInvalidAccepted
+			}
+			return nil
+		},
+		apply:  func(db *verifDB) {},
+		rowOps: func(db *verifDB) int { return 0 },
+		applyN: func(db *verifDB, j int) {}}
+}
+
 var errInvalidAccepted = verifErr("an invalid statement was accepted")
 
 type verifErr string
 
 func (e verifErr) Error() string { return string(e) }
 
-// verifFreeStmt picks one statement among insert(1), insert(2), update, delete, create.
+// verifFreeStmt picks one statement among insert(1), delete, update, insert(2), create,
+// and (kinds 6, 7) a CREATE TABLE and an INSERT that the engine must refuse.
 func verifFreeStmt(db *verifDB, tag string, slen int, kinds int) verifStmt {
 	return verifStmtOfKind(db, tag, slen, verifChoice(tag+"kind", kinds))
 }
@@ -451,6 +476,8 @@ func verifStmtOfKind(db *verifDB, tag string, slen int, k int) verifStmt {
 		t = db.tables[verifChoice(tag+"table", len(db.tables))]
 	}
 	switch k {
+	case 6:
+		return verifGenRefusedInsert(t, tag)
 	case 0:
 		return verifGenInsert(t, 1, tag, slen, false)
 	case 1:
